@@ -151,6 +151,9 @@ func checkIntRead(t fataler, s string) {
 		c.NonTrivial(stats.Hash("int", s))
 	}
 	var f quickfix.FIXInt
+	if (stats.Hash("prior", s)>>8)%2 == 0 {
+		_ = f.Read([]byte("-77")) // a used receiver
+	}
 	var err error
 	pan := catch(func() { err = f.Read([]byte(s)) })
 	if pan != nil {
@@ -285,6 +288,9 @@ func checkFloatRead(t fataler, s string) {
 	}
 	var f quickfix.FIXFloat
 	var err error
+	if (stats.Hash("prior", s)>>8)%2 == 0 {
+		_ = f.Read([]byte("-7.25")) // a used receiver
+	}
 	if pan := catch(func() { err = f.Read([]byte(s)) }); pan != nil {
 		c14fail(t, "float", "panic", charClass(s, "0123456789.-"), s, fmt.Sprint(pan))
 		return
@@ -462,6 +468,8 @@ func tsOracle(s string) (tsVerdict, time.Time, quickfix.TimestampPrecision) {
 
 func tsNear(s string) bool { return true } // all enumerated timestamp texts are <= 2 edits from canonical by construction
 
+var tsPriors = []string{"", "20000101-00:00:00", "20000101-00:00:00.000000", "20000101-00:00:00.000000000"}
+
 func checkTsRead(t fataler, s string, nontrivial bool) {
 	c := c14()
 	c.Eval()
@@ -470,6 +478,12 @@ func checkTsRead(t fataler, s string, nontrivial bool) {
 	}
 	var f quickfix.FIXUTCTimestamp
 	var err error
+	// three quarters of the reads go into a receiver that already holds another value (callers
+	// reuse values across messages): the result must not depend on what was there before
+	if prior := tsPriors[int(stats.Hash("prior", s)>>8)%len(tsPriors)]; prior != "" {
+		_ = f.Read([]byte(prior))
+		c.Class("timestamp:read-into-used-receiver")
+	}
 	if pan := catch(func() { err = f.Read([]byte(s)) }); pan != nil {
 		c14fail(t, "timestamp", "panic", charClass(s, "0123456789-:."), s, fmt.Sprint(pan))
 		return
@@ -679,6 +693,9 @@ func TestC14_Rapid(t *testing.T) {
 				}
 				var f quickfix.FIXUTCTimestamp
 				var err error
+				if prior := rapid.SampledFrom(tsPriors).Draw(t, "prior"); prior != "" {
+					_ = f.Read([]byte(prior))
+				}
 				want := tm.UTC()
 				want = want.Add(-time.Duration(want.Nanosecond()) % unit) // truncate the sub-second part to the unit
 				if pan := catch(func() { err = f.Read(w) }); pan != nil || err != nil || !f.Time.Equal(want) || f.Precision != p {
